@@ -22,10 +22,21 @@ int lib_id(void)
   g_calls[1]++;
   return LIBID;
 }
+/* same prefix as lib_id on purpose */
+int lib_id2(void)
+{
+  g_calls[4]++;
+  return LIBID + 10;
+}
 long add3(long a, int b, short c)
 {
   g_calls[2]++;
   return a + b + c + 1000 * LIBID;
+}
+int inc1(int v)
+{
+  g_calls[3]++;
+  return v + LIBID;
 }
 int ncalls(int which) { return g_calls[which & 7]; }
 
